@@ -17,6 +17,12 @@ import (
 )
 
 const dynFamily = `
+// a parameter spelled like the package that only the results mention (first in the argument
+// list, so that nothing has imported that package before)
+type Res interface {
+	Resolve(foo string, n int) (*@{~/d/bar}.T, error)
+}
+
 type Two interface {
 	M(a int, b string) (int, error)
 	N(xs ...int)
@@ -77,7 +83,7 @@ type dynBuild struct {
 	Dir          string
 }
 
-var dynIfaces = []string{"Two", "Void", "Gen", "Named", "Wide", "Emb", "Dep", "Init", "Logger", "Weird"}
+var dynIfaces = []string{"Two", "Void", "Res", "Gen", "Named", "Wide", "Emb", "Dep", "Init", "Logger", "Weird"}
 
 func dynPkg(dir string) *SrcPkg {
 	sp := &SrcPkg{Dir: dir, Name: "dyn", Files: []SrcFile{{Name: "dyn.go", Decls: dynFamily}}}
